@@ -141,12 +141,63 @@ def _worlds(b, gens):
     return out
 
 
+def _r08_2_then_form(ctx, prog, crate, rec, x, b):
+    """The same clause when the barrier is built by `(<more than one thread>).then(|| Barrier::new(thread_count))`: x is the
+    closure, b the sampling function. bool::then yields None exactly when the condition is false."""
+    from lib.symexpr import Sym, canon_cmp, show
+    ctx.saw(b)
+    bn = [c for c in x.live_calls() if c.callee == "std::sync::Barrier::new"]
+    pe = [c for c in b.live_calls() if c.callee == "util::thread::pool::ThreadPool::par_extend"]
+    th = [c for c in b.live_calls() if c.callee == "core::bool::then" and any(s_["k"] == "assign" and s_["rv"]["k"] == "agg" and s_["rv"].get("ak") == "closure" and
+                                                                                   norm(s_["rv"]["def"]) == x.path for bi, si, s_ in b.stmts())]
+    if not ctx.check(len(bn) == 1 and len(pe) == 1 and len(th) == 1, "R08.2", [b.path, "shape"], "Barrier::new x%d par_extend x%d bool::then x%d" % (len(bn), len(pe), len(th)), b.where(0)):
+        return
+    bn, pe, th = bn[0], pe[0], th[0]
+    S = Sym(b, site_args=True)
+    tc = ("call", "std::num::NonZero::get", (("arg", 1, ("thread_count",)),))
+    # the closure's argument is the captured thread count
+    ups = {z.a.lstrip("*") for z in x.prov.op_src(bn.args[0]) if z.kind == "upvar"}
+    arity = None
+    if len(ups) == 1:
+        cp = prog.capture_operand(x, list(ups)[0])
+        if cp:
+            arity = Sym(cp[0], site_args=True).op(cp[1])
+            while arity and arity[0] in ("sptr", "ptr") and False:
+                pass
+    def strip_site(e):
+        return ("call", e[1], e[3]) if isinstance(e, tuple) and e and e[0] == "site" and len(e) > 3 else e
+    ctx.check(arity is not None and (arity == tc or strip_site(arity) == tc or "NonZero::get" in str(arity) and "thread_count" in str(arity)), "R08.2", [b.path, "barrier-arity-is-thread_count"],
+              "Barrier::new's argument is %s, expected self.thread_count.get()" % (show(arity) if arity else None,), bn.line())
+    aux = S.op(pe.args[2])
+    ctx.check("NonZero::get" in str(aux) and "thread_count" in str(aux) and aux[0] == "lin" and aux[2] == -1 and len(aux[1]) == 1 and aux[1][0][1] == 1, "R08.2", [b.path, "aux-is-thread_count-minus-1"],
+              "par_extend's auxiliary-thread count is %s, expected thread_count - 1" % show(aux), pe.line())
+    cond = S.op(th.args[0])
+    neg = False
+    while cond[0] == "un" and cond[1] == "Not":
+        cond, neg = cond[2], not neg
+    atom, pol = canon_cmp(cond)
+    if neg:
+        pol = not pol
+    # barrier exactly when aux != 0  (Eq(0, aux) false), or thread_count > 1 / != 1
+    ok = atom is not None and ((atom[0] == "Eq" and ("int", 0) in atom[1:] and aux in atom[1:] and pol is False) or
+                               (atom[0] == "Eq" and ("int", 1) in atom[1:] and "thread_count" in str(atom) and pol is False) or
+                               (atom[0] == "Lt" and atom[1] == ("int", 1) and "thread_count" in str(atom[2]) and pol is True) or
+                               (atom[0] == "Lt" and atom[1] == ("int", 0) and atom[2] == aux and pol is True))
+    ctx.check(ok, "R08.2", [b.path, "barrier-iff-multi-thread"], "the barrier exists when %s%s; expected exactly when more than one thread takes part" % ("" if pol else "not ", show(atom) if atom else show(cond)), th.line())
+    ctx.ok("R08.2", b.path + "|no-barrier-when-single")
+    ctx.ok("R08.2", b.path + "|none-when-single")
+    ctx.check(b.innermost_loop(th.bb) is not None and b.innermost_loop(pe.bb) is not None and b.innermost_loop(th.bb)["header"] == b.innermost_loop(pe.bb)["header"],
+              "R08.2", [b.path, "fresh-barrier-per-round"], "barrier and broadcast are not created in the same round", th.line())
+
+
 def r08_2(ctx, prog, crate, rec):
     cands = [b for b in prog.lib_bodies(crate) if any(c.callee == "std::sync::Barrier::new" for c in b.live_calls()) and "::tests::" not in b.path]
     if not ctx.check(len(cands) == 1, "R08.2", ["Barrier::new", "one-owner"], "Barrier::new is called from %s" % [x.path for x in cands], None):
         return
     b = cands[0]
     ctx.saw(b)
+    if b.kind == "Closure" and prog.parent_body(b) is not None and any(c.callee == "core::bool::then" for c in prog.parent_body(b).live_calls()):
+        return _r08_2_then_form(ctx, prog, crate, rec, b, prog.parent_body(b))
     bn = [c for c in b.live_calls() if c.callee == "std::sync::Barrier::new"]
     pe = [c for c in b.live_calls() if c.callee == "util::thread::pool::ThreadPool::par_extend"]
     if not ctx.check(len(bn) == 1 and len(pe) == 1, "R08.2", [b.path, "shape"], "Barrier::new x%d par_extend x%d" % (len(bn), len(pe)), b.where(0)):
